@@ -63,114 +63,112 @@ def vc_text(engine, ob, defs=None, fuel=None, get_values=(), nl="exact", axioms=
     return engine.ctx.vc_text(ob.hyps, ob.goal, defs=defs or ob.defs, fuel=fuel or ob.fuel, get_values=get_values, nl=nl, extra_axioms=axioms, seq=seq, keep=keep)
 
 
-def discharge(engine: Engine, reports, schedule=None, both=False, workers=16):
-    """Stage 1: z3 short.  Stage 2: cheap refutation attempt with ground definitions (sat => likely broken,
-    give it one more prover attempt only).  Stage 3: the rest of the schedule."""
-    schedule = list(schedule or solver.DEFAULT_SCHEDULE)
-    obs = [o for r in reports for o in r.obligations]
+# Portfolio of sound weakenings of one VC.  Every variant drops or abstracts something (axioms known to blow up E-matching,
+# quantified hypotheses other than preconditions and ghost cuts, the sequence theory, products, quantified definitions), so `unsat`
+# from any of them proves the obligation; only the unweakened VC ("full") is ever used to refute.
+VARIANTS = [
+    # label, vc_text keywords, solver, seconds
+    ("ground-defs", dict(defs="ground", fuel=None), "z3", 3),
+    ("ground-defs, products abstracted", dict(defs="ground", fuel=None, nl="abstract"), "z3", 6),
+    ("light axioms", dict(axioms="light"), "z3", 5),
+    ("light axioms, sequences abstracted", dict(axioms="light", seq="abstract"), "z3", 8),
+    ("light axioms, ground-defs", dict(axioms="light", defs="ground", fuel=3), "z3", 5),
+    ("focus", dict(axioms="light", focus=True), "z3", 6),
+    ("focus, ground-defs, sequences abstracted", dict(axioms="light", focus=True, defs="ground", fuel=3, seq="abstract"), "z3", 6),
+    ("focus, sequences abstracted", dict(axioms="light", focus=True, seq="abstract"), "z3", 6),
+    ("light axioms, ground-defs, sequences abstracted", dict(axioms="light", defs="ground", fuel=3, seq="abstract"), "z3", 6),
+    ("focus, ground-defs", dict(axioms="light", focus=True, defs="ground", fuel=3), "z3", 6),
+    ("light axioms", dict(axioms="light"), "cvc5", 8),
+    ("light axioms, sequences abstracted", dict(axioms="light", seq="abstract"), "cvc5", 8),
+    ("ground-defs, products abstracted", dict(defs="ground", fuel=None, nl="abstract"), "cvc5", 8),
+    ("full", dict(), "z3", 20),
+    ("full", dict(), "cvc5", 20),
+    ("ground-defs", dict(defs="ground", fuel=None), "cvc5", 10),
+    ("focus", dict(axioms="light", focus=True), "cvc5", 10),
+]
 
-    def work(o):
-        if o.expect == "not-unsat":
-            txt = vc_text(engine, o, defs="ground")
-            res = solver.solve_text(txt, schedule=(("z3", 2), ("cvc5", 2)), both=True)
-            o.result = res
-            o.ok = res.status != "unsat"
-            o.smt_size = len(txt)
-            return o
+
+def discharge(engine: Engine, reports, schedule=None, both=False, workers=16):
+    """Staged portfolio: every stage is one variant of the VC tried on all still-open obligations in parallel."""
+    obs = [o for r in reports for o in r.obligations]
+    deep = bool(schedule) and sum(t for _, t in schedule) > 60  # thorough tier: longer budgets
+
+    def run_variant(o, label, kw, sv, to):
+        kw = dict(kw)
+        if "fuel" in kw and kw["fuel"] is None:
+            kw["fuel"] = max(2, o.fuel)
+        txt = vc_text(engine, o, **kw)
+        if sv == "z3" and "seq." not in txt and "seq=" in str(kw) and kw.get("seq") == "abstract":
+            return None  # nothing to abstract: identical to an earlier variant
+        if "nl" in kw and "nlmul" not in txt:
+            return None
+        res = solver.solve_text(txt, schedule=((sv, to * (2 if deep else 1)),))
+        return res
+
+    def guards(o):
+        txt = vc_text(engine, o, defs="ground")
+        res = solver.solve_text(txt, schedule=(("z3", 2), ("cvc5", 2)), both=True)
+        o.result = res
+        o.ok = res.status != "unsat"
+        o.smt_size = len(txt)
+        return o
+
+    def both_solvers(o):
         txt = vc_text(engine, o)
         o.smt_size = len(txt)
-        if both:
-            res = solver.solve_text(txt, schedule=schedule, both=True)
-            o.result = res
-            o.ok = res.status == "unsat"
-            return o
-        # ground definitional instances first: fewer axioms, so 'unsat' is a proof and 'sat' is a cheap hint
-        gtxt = vc_text(engine, o, defs="ground", fuel=max(2, o.fuel))
-        ref = solver.solve_text(gtxt, schedule=(("z3", 3),))
-        o.refute = ref
-        ab = None
-        if ref.status != "unsat" and "nlmul" in gtxt.split("(check-sat)")[0].split("\n", 3)[-1]:
-            # same VC with products of two non-constants left uninterpreted (sound for unsat)
-            ab = solver.solve_text(vc_text(engine, o, defs="ground", fuel=max(2, o.fuel), nl="abstract"), schedule=(("z3", 8), ("cvc5", 8)))
-        if ref.status == "unsat":
-            ref.solver = "z3(ground-defs)"
-            res = ref
-        elif ab is not None and ab.status == "unsat":
-            ab.solver = ab.solver + "(ground-defs, products abstracted)"
-            ab.attempts = [("z3-ground", ref.status, round(ref.time_s, 3))] + ab.attempts
-            res = ab
-        else:
-            light = None
-            if ref.status != "sat" and engine.ctx.heavy_axioms:
-                # same VC without the axioms that make E-matching explode (sound: fewer hypotheses)
-                light = solver.solve_text(vc_text(engine, o, axioms="light"), schedule=(("z3", 4), ("cvc5", 6)))
-            if light is not None and light.status != "unsat" and "seq." in txt:
-                # sequences abstracted to an uninterpreted sort with nth / len (sound weakening; quantified seq.nth reasoning is slow)
-                l2 = solver.solve_text(vc_text(engine, o, axioms="light", seq="abstract"), schedule=(("z3", 4), ("cvc5", 6)))
-                if l2.status == "unsat":
-                    l2.solver = l2.solver + "(sequences abstracted)"
-                    l2.attempts = light.attempts + l2.attempts
-                    light = l2
-            if light is not None and light.status != "unsat" and o.kind in ("post", "assert", "inv-preserve", "call-pre"):
-                l3 = solver.solve_text(vc_text(engine, o, axioms="light", focus=True, seq="abstract" if "seq." in txt else "real"), schedule=(("z3", 4), ("cvc5", 6)))
-                if l3.status == "unsat":
-                    l3.solver = l3.solver + "(focus: only preconditions, cuts and quantifier-free facts)"
-                    l3.attempts = light.attempts + l3.attempts
-                    light = l3
-            if light is not None and light.status == "unsat":
-                light.solver = light.solver + "(light axioms)"
-                light.attempts = [("z3-ground", ref.status, round(ref.time_s, 3))] + light.attempts
-                light.time_s += ref.time_s
-                o.result = light
-                o.ok = True
-                return o
-            rest = schedule[:2] if ref.status == "sat" else schedule
-            res = solver.solve_text(txt, schedule=rest)
-            if res.status != "unsat" and ref.status != "sat":
-                r3 = solver.solve_text(gtxt, schedule=(("cvc5", 10),))
-                if r3.status == "unsat":
-                    r3.solver = "cvc5(ground-defs)"
-                    r3.attempts = res.attempts + r3.attempts
-                    res = r3
-            res.attempts = [("z3-ground", ref.status, round(ref.time_s, 3))] + res.attempts
-            res.time_s += ref.time_s
+        res = solver.solve_text(txt, schedule=list(schedule or solver.DEFAULT_SCHEDULE), both=True)
         o.result = res
         o.ok = res.status == "unsat"
         return o
 
+    proof_obs = [o for o in obs if o.expect != "not-unsat"]
     with ThreadPoolExecutor(max_workers=workers) as ex:
-        list(ex.map(work, obs))
+        list(ex.map(guards, [o for o in obs if o.expect == "not-unsat"]))
+        for o in proof_obs:
+            o.attempts_all = []
+            o.ok = False
+            o.result = None
+            o.refute = None
+            o.smt_size = None
+        open_obs = list(proof_obs)
+        for label, kw, sv, to in VARIANTS:
+            if not open_obs:
+                break
 
-    # Rescue pass: an obligation that nobody proved and nobody refuted may just have lost the race for CPU time
-    # (all 16 cores busy, other checks running).  Re-run those few with long budgets and little parallelism so the
-    # verdict does not depend on the load.  Never turns a 'sat' into anything else.
-    def undecided(o):
-        return (o.expect == "unsat" and not o.ok and o.result is not None and o.result.status not in ("sat", "disagree")
-                and getattr(getattr(o, "refute", None), "status", None) != "sat")
-
-    def rescue(o):
-        long = (("z3", 60), ("cvc5", 90))
-        tries = [(vc_text(engine, o, axioms="light"), "(light axioms)"),
-                 (vc_text(engine, o, defs="ground", fuel=max(2, o.fuel)), "(ground-defs)"),
-                 (vc_text(engine, o), ""),
-                 (vc_text(engine, o, defs="ground", fuel=max(2, o.fuel), nl="abstract"), "(ground-defs, products abstracted)")]
-        for txt, tag in tries:
-            res = solver.solve_text(txt, schedule=long)
-            if res.status == "unsat":
-                res.solver = res.solver + tag + "[rescue]"
-                res.attempts = o.result.attempts + res.attempts
-                res.time_s += o.result.time_s
-                o.result = res
-                o.ok = True
+            def step(o, label=label, kw=kw, sv=sv, to=to):
+                res = run_variant(o, label, kw, sv, to)
+                if res is None:
+                    return o
+                if o.smt_size is None:
+                    o.smt_size = len(vc_text(engine, o))
+                o.attempts_all += [(f"{a[0]}[{label}]", a[1], a[2]) for a in res.attempts]
+                if res.status == "unsat":
+                    res.solver = f"{sv}({label})" if label != "full" else sv
+                    res.attempts = list(o.attempts_all)
+                    res.time_s = sum(a[2] for a in o.attempts_all)
+                    o.result, o.ok = res, True
+                elif res.status == "sat":
+                    # a model of a weakened VC is only a hint; of the full VC it is a refutation
+                    if label == "ground-defs" and sv == "z3":
+                        o.refute = res
+                    if label == "full":
+                        res.attempts = list(o.attempts_all)
+                        o.result = res
                 return o
-            if res.status == "sat" and tag == "":
-                o.result = res
-                return o
-        return o
 
-    left = [o for o in obs if undecided(o)]
-    if left:
-        # many undecided obligations at once is a changed function, not load: rescue only a handful
-        with ThreadPoolExecutor(max_workers=4) as ex:
-            list(ex.map(rescue, left[:12]))
+            list(ex.map(step, open_obs))
+            open_obs = [o for o in open_obs if not o.ok and not (o.result is not None and o.result.status == "sat")]
+        for o in proof_obs:
+            if o.result is None:
+                o.result = solver.Result("unknown", "-", sum(a[2] for a in o.attempts_all), "", list(o.attempts_all))
+        if both:
+            # thorough tier: additionally run both solvers on the unweakened VC and report disagreements
+            def cross(o):
+                txt = vc_text(engine, o)
+                res = solver.solve_text(txt, schedule=(("z3", 20), ("cvc5", 20)), both=True)
+                if res.status == "disagree":
+                    o.result, o.ok = res, False
+                return o
+
+            list(ex.map(cross, proof_obs))
     return obs
